@@ -169,6 +169,13 @@ def run(ctx):
         qk = PG.QT(q.dims, q.kind, 1, q.module, q.alias)
         progs += C02.forms(q, qk, t, ctx.rng.fork("m" + q.module))[:13] + C02.forms(q, q, t, ctx.rng.fork("m" + q.module))[:13]
         progs += [PG.P_mul(q, qk), PG.P_div(q, qk), PG.P_mul(q, q)]
+    # conversions between kinds: across base-unit sets they exist only with autoconvert; with identical base units always
+    for a_ in [q for q in qts if q.kind not in ("Kind", "TemperatureKind")]:
+        for b_ in qts:
+            if b_.kind == "Kind" and b_.dims == a_.dims and b_.module != a_.module:
+                a1, b1 = PG.QT(a_.dims, a_.kind, 1, a_.module, a_.alias), PG.QT(b_.dims, b_.kind, 1, b_.module, b_.alias)
+                progs += [PG.P_from(a1, b_, "from"), PG.P_from(b1, a_, "into"), PG.P_from(a_, b_, "from"), PG.P_from(b_, a_, "into")]
+                break
     pst, mv, rv = C01.compare(ctx, t, progs, FEATURE_SETS["noac"][:0] + ["f64", "si", "std"], False, True, "c17noac", "C17: mixed-base operands without autoconvert")
 
     for cid, why, _ in bad[:5]:
